@@ -7,6 +7,7 @@ Definition run_case (chk : bool) (l : list Z) : list Z :=
       if fam =? 1 then run_df chk t
       else if fam =? 2 then run_api chk t
       else if fam =? 8 then run_apistep chk t
+      else if fam =? 7 then run_escape t
       else []
   | [] => []
   end.
